@@ -230,6 +230,31 @@ def rule_MP3(rep, prog):
                               % (path, {True: "failed", False: "succeeded", None: "outcome untested"}[f]))
 
 
+def rule_MP4(rep, prog):
+    rid = rep.rule("C08-MP4", "_dispatch_semaphore_signal_slow posts exactly one wake-up on every path: the signaller that found a waiter (new value <= 0) owes it "
+                   "the kernel post unconditionally - a waiter that times out meanwhile drains it - and it posts to the semaphore's own dsema_sema", floor=2)
+    fn = prog.fn("_dispatch_semaphore_signal_slow")
+    rep.saw(fn)
+    posts = calls_named(fn, "_dispatch_sema4_signal")
+    if not posts:
+        rep.unknown(rid, "anchor vanished: _dispatch_semaphore_signal_slow never calls _dispatch_sema4_signal")
+        return
+    res = paths.walk(fn, entry_point(fn), lambda i: False)
+    exits = [r for r in res if r[0] == "exit"]
+    bad = [r[3] for r in exits if sum(1 for b in r[3] for i in fn.blocks[b].insts if i in posts) != 1]
+    rep.require(rid, not bad and bool(exits), posts[0].loc, fn.name, "signal-slow-skips-post",
+                "_dispatch_semaphore_signal_slow returns on a path that does not post exactly one wake-up (path %s): the signaller whose increment found a waiter "
+                "is the only one that will ever post for it (later signals see a positive value and take the fast path), so the blocked waiter is never "
+                "released although enough signals arrived" % (bad[0] if bad else None), sample={"paths": len(exits), "posts": len(posts)})
+    for c in posts:
+        p = fn.inst(c.ops[0])
+        cnt = c.ops[1] if len(c.ops) > 1 else None
+        ok = p is not None and "dsema_sema" in prog.fields(p) and cnt is not None and cnt[0] == "c" and cnt[1] == 1
+        rep.require(rid, ok, c.loc, fn.name, "signal-slow-post-shape",
+                    "_dispatch_semaphore_signal_slow must post count 1 to &dsema->dsema_sema (found count %s on %s)" % (cnt, sorted(prog.fields(p)) if p is not None else None),
+                    sample={"count": 1, "on": "dsema_sema"})
+
+
 def run(rep, tier="quick", srcdir=None, only=None):
     prog, units = load(UNITS, tier, srcdir)
     rep.units = units
@@ -241,6 +266,14 @@ def run(rep, tier="quick", srcdir=None, only=None):
         rule_MP2(rep, prog)
     if want("C08-MP3"):
         rule_MP3(rep, prog)
+    if want("C08-MP4"):
+        rule_MP4(rep, prog)
+    if want("C12-P7"):
+        # "a wait returns non-zero only after its full timeout": the absolute deadline handed to sem_timedwait is decoded from the dispatch_time_t by
+        # _dispatch_time_nanoseconds_since_epoch (shared with C12)
+        from dqsa import build, ir
+        from . import C12
+        C12.run_epoch(rep, ir.Program(build.facts_for(C12.UNITS, mode="all", srcdir=srcdir)))
 
 
 MANIFEST = {
